@@ -53,6 +53,9 @@ def run_one(prop, base_seed, index, tier, mask, want_raw=False, want_digest=Fals
     try:
         case = spec.generate(rng, index, tier, mask, _CACHE)
         verdict = spec.check(case, mask, _CACHE)
+        for hk, hv in sorted((verdict.get("hits") or {}).items()):
+            case["meta"].setdefault("hits", {})
+            case["meta"]["hits"][hk] = case["meta"]["hits"].get(hk, 0) + hv
         out.update({"nops": len(case["ops"]), "meta": case["meta"], "violation": None,
                     "checked": verdict.get("checked", len(case["ops"]))})
         if want_digest:
